@@ -245,7 +245,9 @@ class Built:
                 for n, b in files:
                     vk.add_file(n, b, arch_index=vpk_arch)
             self.fs['vpk'] = VPKFileSystem(vp)
-            self.vpk_order = [(f.filename, f.read()) for f in self.fs['vpk'].vpk]
+            # the container's iteration order with the bytes that were stored (not what its reader returns)
+            stored = dict(files)
+            self.vpk_order = [(f.filename, stored[f.filename] if f.filename in stored else f.read()) for f in self.fs['vpk'].vpk]
         if 'raw' in which:
             rd = os.path.join(self.dir, 'raw')
             os.makedirs(rd)
@@ -1374,6 +1376,21 @@ def run(ck: Ck) -> None:
     for what, sub in (('get', 'lookup-raw-'), ('exists', 'lookup-raw-'), ('open', 'lookup-raw-'), ('walk', 'walk-raw-')):
         if any_key(sub):
             ck.explain(f'instance:raw_{what}_converts_slashes_only')
+    # a model/implementation disagreement is explained by a concrete violation on the same backend / on chains
+    dis = ck.extra.get('backend_disagreement', {}).get('backend')
+    if dis and any_key(f'lookup-{dis}-', f'walk-{dis}-', f'content-{dis}'):
+        ck.explain('correspondence:backends')
+    if 'chain_disagreement' in ck.extra and any_key('chain-'):
+        ck.explain('correspondence:chain')
+    terr = next((o['detail'] for o in ck.obligations if o['name'].startswith('translate:') and not o['ok']), '')
+    for subs, pats in ((('FileSystemChain._file_exists', '__contains__'), ('chain-contains-', 'chain-file_exists-')),
+                       (('FileSystemChain.open_bin', 'FileSystemChain.open_str'), ('chain-open_bin-', 'chain-open_str-', 'chain-file_open_str-')),
+                       (('_get_file:', '__getitem__'), ('chain-get-', 'chain-get_file-')),
+                       (('walk_folder_repeat', 'FileSystemChain.walk_folder', 'walk_folder:', '__iter__'), ('chain-walk-', 'chain-iter-')),
+                       (('add_sys',), ('chain-get-not-first-match',)),
+                       (('VPKFileSystem.open', 'content expression', 'content helper'), ('content-vpk',))):
+        if terr and any(x in terr for x in subs) and any_key(*pats):
+            ck.explain('translate:')
     if any_key('chain-contains-', 'chain-file_exists-'):
         ck.explain('instance:chain_exists_asks_each_member_its_own_name')
         ck.explain('instance-theorem:chain_exists_and_vpk_bytes')
